@@ -100,6 +100,38 @@ def reportedSlack (m : POMDP) (useTol : Bool) (var : Rat) (h : Nat) : Rat :=
 
 def clampActive (m : POMDP) : Bool := decide (1 - m.γ < Gen.C03Src.clamp)
 
+/-- the model has a positive transition / observation probability (or product) at or below the library's `equalToleranceSmall`: the
+    1e-6 cut-offs of `GapMin::makeNewPomdp`, `LPInterpolation` and `bestPromisingAction` drop mass that is really there -/
+def tinyModel (m : POMDP) : Bool :=
+  let θ := Gen.equalToleranceSmall
+  (List.range m.A).any (fun a => (List.range m.S).any (fun s => (List.range m.S).any (fun s1 =>
+    (decide (0 < m.T s a s1) && decide (m.T s a s1 ≤ θ)) ||
+    (List.range m.O).any (fun o => (decide (0 < m.Ob s1 a o) && decide (m.Ob s1 a o ≤ θ)) ||
+      (decide (0 < m.T s a s1 * m.Ob s1 a o) && decide (m.T s a s1 * m.Ob s1 a o ≤ θ))))))
+
+/-- the slack `anytimeT_sound` (Props/C03Trunc) proves sufficient for the cut-offs: `e = C·D/(1−γ)` with `C = max(0, max R)/(1−γ)` (bounds `H L`),
+    `D = O·(S+N)·θ` (mass dropped per pseudo-state and action: `truncW_residual` over `S+N` pseudo-states, zero-state classification) -/
+def cutSlack (m : POMDP) (npts : Nat) : Rat :=
+  let rmax := let r := maxRall m; if r < 0 then 0 else r
+  truncSlack m.γ (rmax / (1 - m.γ)) ((m.O : Rat) * ((m.S + npts : Nat) : Rat) * Gen.equalToleranceSmall)
+
+/-- the slack `pointBackup_src_cut_sound` (Props/C03Trunc) proves sufficient for Projecter's possible-observation cut on the LOWER side:
+    `e = γ·K·O·θ/(1−γ)` with `K = max|R|/(1−γ)`, `θ` = the threshold the source has (0 once the test is `> 0.0`) -/
+def lowCutSlack (m : POMDP) : Rat :=
+  let θ : Rat := if Gen.C03Src.projecterObsCut then Gen.equalToleranceSmall else 0
+  m.γ * (maxAbsR m / (1 - m.γ)) * ((m.O : Rat) * θ) / (1 - m.γ)
+
+/-- first vector / probe where a lower-bound vector exceeds `ref x + slack`, with the amount -/
+def vecAboveBy (m : POMDP) (vs : List Vec) (xs : List (Vec × Rat)) (slack : Rat) : Option (Rat × String) :=
+  firstSome vs (fun α => firstSome xs (fun (x, u) =>
+    if decide (dotV m.S x α ≤ u + slack) then none else some (dotV m.S x α - u - slack, s!"alpha·x={ratStr (dotV m.S x α)} ref={ratStr u} at x={showVec x}")))
+
+/-- name of a failing lower-bound clause: within the proved cut-off slack on a model with sub-threshold probabilities it is the recorded
+    cut-off defect; anything larger is the plain failure -/
+def lbKind (kind : String) (m : POMDP) (excess : Rat) : String :=
+  if tinyModel m && decide (excess ≤ lowCutSlack m) then kind ++ "_within_proved_cutoff_slack" else kind
+
+
 /-! ### blind -/
 
 /-- `blind <pomdp> <b0> fast h tol | variation vlist` -/
@@ -204,14 +236,18 @@ def vfChecks (comp : String) (m : POMDP) (xs : List Vec) (c0 : Rat) (kmax : Nat)
   let v := v.diffIf resL.isSome s!"{comp} vector_not_backup_of_its_links {resL.getD ""}"
   let resS := firstSome idx (fun t =>
     let xsf := xs.map (fun x => (x, finU m c0 t kmax x))
-    match vecAbove m ((vf.getD t #[]).toList.map (·.values)) xsf eps with | some s => some s!"t={t} {s}" | none => none)
-  let v := v.failIf resS.isSome s!"{comp} vector_above_finite_horizon_optimum {resS.getD ""}"
+    match vecAboveBy m ((vf.getD t #[]).toList.map (·.values)) xsf eps with | some (d, s) => some (d, s!"t={t} {s}") | none => none)
+  let v := match resS with
+    | some (d, s) => v.failIf true s!"{comp} {lbKind "vector_above_finite_horizon_optimum" m d} {s}"
+    | none => v
   match alsoInf with
   | none => v
   | some r =>
     let xsi := xs.map (fun x => (x, r.U x))
-    let resI := firstSome idx (fun t => match vecAbove m ((vf.getD t #[]).toList.map (·.values)) xsi eps with | some s => some s!"t={t} {s}" | none => none)
-    v.failIf resI.isSome s!"{comp} vector_above_optimal_value {resI.getD ""}"
+    let resI := firstSome idx (fun t => match vecAboveBy m ((vf.getD t #[]).toList.map (·.values)) xsi eps with | some (d, s) => some (d, s!"t={t} {s}") | none => none)
+    match resI with
+    | some (d, s) => v.failIf true s!"{comp} {lbKind "vector_above_optimal_value" m d} {s}"
+    | none => v
 
 /-- `pbvi <pomdp> <b0> h tol nb beliefs… | variation T vlists` -/
 def pbviOp : P String := do
@@ -244,23 +280,41 @@ def perseusOp : P String := do
 
 /-! ### SARSOP / GapMin: snapshots and returned tuples -/
 
+/-- an upper-bound clause `ref ≤ val`: fine within the float slack; within the proved cut-off slack on a model with sub-threshold
+    probabilities it is the (recorded) cut-off defect and named so; anything else is the plain failure -/
+def ubKind (kind : String) (tiny : Bool) (eps cut l val : Rat) : Option String :=
+  if decide (l ≤ val + eps) then none
+  else if tiny && decide (l ≤ val + eps + cut) then some (kind ++ "_within_proved_cutoff_slack")
+  else some kind
+
 /-- clauses common to a snapshot and a returned tuple -/
-def boundClauses (comp : String) (m : POMDP) (r : Refs) (b0 : Vec) (lb ub : Rat) (vl : Array VE) (Q : Mat) (pts : Array (Vec × Rat)) (v : Verdict) : Verdict :=
+def boundClauses (comp : String) (m : POMDP) (r : Refs) (b0 : Vec) (lb ub : Rat) (vl : Array VE) (Q : Mat) (pts : Array (Vec × Rat)) (npts : Nat) (v : Verdict) : Verdict :=
   let eps := epsOf m
+  let tiny := tinyModel m
+  let cut := if tiny then cutSlack m npts else 0
   let u0 := r.U b0
   let l0 := r.L b0
-  let v := v.failIf (!(decide (lb ≤ u0 + eps))) s!"{comp} lb_above_optimal_value lb={ratStr lb} ref={ratStr u0}"
-  let v := v.failIf (!(decide (l0 ≤ ub + eps))) s!"{comp} ub_below_optimal_value ub={ratStr ub} ref={ratStr l0}"
-  let v := v.failIf (!(decide (lb ≤ ub + eps))) s!"{comp} lb_above_ub lb={ratStr lb} ub={ratStr ub}"
+  let v := v.failIf (!(decide (lb ≤ u0 + eps))) s!"{comp} {lbKind "lb_above_optimal_value" m (lb - u0 - eps)} lb={ratStr lb} ref={ratStr u0}"
+  let v := match ubKind "ub_below_optimal_value" tiny eps cut l0 ub with
+    | some k => v.failIf true s!"{comp} {k} ub={ratStr ub} ref={ratStr l0}"
+    | none => v
+  let v := if decide (lb ≤ ub + eps) then v else
+    v.failIf true s!"{comp} {if tiny && decide (lb ≤ ub + eps + cut + lowCutSlack m) then "lb_above_ub_within_proved_cutoff_slack" else "lb_above_ub"} lb={ratStr lb} ub={ratStr ub}"
   let ps := probes m b0
-  let resV := vecAbove m (vl.toList.map (·.values)) (ps.map (fun x => (x, r.U x))) eps
-  let v := v.failIf resV.isSome s!"{comp} lb_vector_above_optimal_value {resV.getD ""}"
-  let resQ := firstSome ps (fun x => let l := r.L x; if decide (l ≤ basicValV m Q x + eps) then none else some s!"ubQ(x)={ratStr (basicValV m Q x)} ref={ratStr l} x={showVec x}")
-  let v := v.failIf resQ.isSome s!"{comp} ubQ_below_optimal_value {resQ.getD ""}"
+  let resV := vecAboveBy m (vl.toList.map (·.values)) (ps.map (fun x => (x, r.U x))) eps
+  let v := match resV with
+    | some (d, s) => v.failIf true s!"{comp} {lbKind "lb_vector_above_optimal_value" m d} {s}"
+    | none => v
+  let resQ := firstSome ps (fun x => let l := r.L x; match ubKind "ubQ_below_optimal_value" tiny eps cut l (basicValV m Q x) with
+    | some k => some (k, s!"ubQ(x)={ratStr (basicValV m Q x)} ref={ratStr l} x={showVec x}")
+    | none => none)
+  let v := match resQ with | some (k, d) => v.failIf true s!"{comp} {k} {d}" | none => v
   let resP := firstSome (pts.toList.take 6) (fun (p, val) =>
     if !(isBelief m.S p) then none else
-    let l := r.L p; if decide (l ≤ val + eps) then none else some s!"point={showVec p} value={ratStr val} ref={ratStr l}")
-  v.failIf resP.isSome s!"{comp} ubV_point_below_optimal_value {resP.getD ""}"
+    let l := r.L p; match ubKind "ubV_point_below_optimal_value" tiny eps cut l val with
+    | some k => some (k, s!"point={showVec p} value={ratStr val} ref={ratStr l}")
+    | none => none)
+  match resP with | some (k, d) => v.failIf true s!"{comp} {k} {d}" | none => v
 
 def matRows (Q : Mat) : List (List Rat) := Q.toList.map (·.toList)
 
@@ -388,7 +442,7 @@ def snapOp : P String := do
   let r := mkRefs m 30 150
   let eps := epsOf m
   let v : Verdict := { tag := s!"snap_{algo}" ++ (if it == 0 then " first" else "") }
-  let v := boundClauses algo m r b0 lb ub vl Q pts v
+  let v := boundClauses algo m r b0 lb ub vl Q pts pts.size v
   -- GapMin's lb is the value of its vector set at the initial belief
   let v := if algo == "GapMin" && vl.size > 0 then
       let best := maxTo (vl.size - 1) (fun i => dotV m.S b0 (veVals vl i))
@@ -444,7 +498,7 @@ def finalOp : P String := do
   if clampActive m then return "skip clamp_active"
   let r := mkRefs m 40 400
   let v : Verdict := { tag := s!"final_{algo}" ++ (if bs then " budget_stop" else " converged") }
-  return (boundClauses algo m r b0 lb ub vl Q #[] v).render
+  return (boundClauses algo m r b0 lb ub vl Q #[] 100 v).render
 
 /-! ### look-ahead kernels -/
 
@@ -490,6 +544,55 @@ def promOp : P String := do
   let v := v.failIf (!(decide (l ≤ iv + eps))) s!"bestPromisingAction value_below_optimal_value v={ratStr iv} ref={ratStr l}"
   return v.render
 
+/-! ### helpers one level below the anchored code: each is held to its own contract on the implementation's outputs -/
+
+/-- `bel <pomdp> <b0> b a o | unnorm partial partialUnnorm hasMass normalised expectedReward` -/
+def belOp : P String := do
+  let m ← pomdpP; let _b0 ← lvecP
+  let b ← lvecP; let a ← P.nat; let o ← P.nat; P.bar
+  let un ← lvecP; let part ← lvecP; let pun ← lvecP; let has ← P.bool; let nb ← lvecP; let er ← P.q; P.eof
+  if !validModel m then return "skip invalid_model"
+  let v : Verdict := { tag := "belief_update_helpers" ++ (if decide (mass m.S b.get = 1) then "" else " unnormalised_input") ++ (if has then "" else " impossible_observation") }
+  let ref := bstepV m b a o
+  let refPart := mkVec m.S (fun s1 => sumTo m.S (fun s => b.get s * m.T s a s1))
+  let v := v.failIf (!(closeVec m.S ref un)) s!"updateBeliefUnnormalized not_T_then_O model={showVec ref} impl={showVec un}"
+  let v := v.failIf (!(closeVec m.S refPart part)) s!"updateBeliefPartial not_b_times_T model={showVec refPart} impl={showVec part}"
+  let v := v.failIf (!(closeVec m.S ref pun)) s!"updateBeliefPartialUnnormalized not_O_times_partial model={showVec ref} impl={showVec pun}"
+  let ms := mass m.S ref.get
+  let v := v.failIf (has != decide (0 < ms)) s!"updateBeliefUnnormalized mass_sign mass={ratStr ms}"
+  let v := if has && decide (0 < ms) then
+      v.failIf (!(closeVec m.S (mkVec m.S (fun s => ref.get s / ms)) nb)) s!"updateBelief not_normalised_successor impl={showVec nb}"
+    else v
+  let v := v.failIf (!(close (rew m b.get a) er)) s!"beliefExpectedReward not_b_dot_R model={ratStr (rew m b.get a)} impl={ratStr er}"
+  return v.render
+
+def sameVE (S : Nat) (x y : VE) : Bool := x.action == y.action && x.values.size == y.values.size && allLt S (fun s => x.values.get s == y.values.get s)
+
+/-- `dom <pomdp> <b0> b vlist | best bestIdx kept eqNear eqFar eqFarSym` -/
+def domOp : P String := do
+  let m ← pomdpP; let _b0 ← lvecP
+  let b ← lvecP; let vl ← vlistP false; P.bar
+  let best ← P.q; let bi ← P.nat; let kept ← vlistP false; let e1 ← P.bool; let e2 ← P.bool; let e3 ← P.bool; P.eof
+  if !validModel m then return "skip invalid_model"
+  let v : Verdict := { tag := "prune_helpers" }
+  -- findBestAtPoint: the reported value is the value of the reported entry and no entry is worth more
+  let v := v.failIf (!(bi < vl.size && close (dotV m.S b (veVals vl bi)) best)) s!"findBestAtPoint value_not_of_returned_entry idx={bi} value={ratStr best}"
+  let worse := firstSome (List.range vl.size) (fun i => if decide (dotV m.S b (veVals vl i) ≤ best + epsOf m) then none else some s!"i={i} value={ratStr (dotV m.S b (veVals vl i))} best={ratStr best}")
+  let v := v.failIf worse.isSome s!"findBestAtPoint not_the_maximum {worse.getD ""}"
+  -- extractDominated: survivors are members of the input (never invents a vector: soundness of GapMin's start set) ...
+  let inv := firstSome kept.toList (fun e => if vl.any (sameVE m.S e) then none else some s!"a={e.action} {showVec e.values}")
+  let v := v.failIf inv.isSome s!"extractDominated survivor_not_in_input {inv.getD ""}"
+  -- ... and every input vector is dominated (1e-5) by a survivor, so the represented function is unchanged
+  let tol : Rat := 1 / 100000
+  let lost := firstSome vl.toList (fun e => if kept.any (fun k => allLt m.S (fun s => decide (e.values.get s ≤ k.values.get s + tol))) then none else some s!"a={e.action} {showVec e.values}")
+  let v := v.failIf lost.isSome s!"extractDominated dropped_undominated_vector {lost.getD ""}"
+  let dup := firstSome (List.range kept.size) (fun i => firstSome (List.range kept.size) (fun j =>
+    if i != j && allLt m.S (fun s => decide ((veVals kept i).get s ≤ (veVals kept j).get s)) then some s!"i={i} j={j}" else none))
+  let v := v.failIf dup.isSome s!"extractDominated kept_dominated_vector {dup.getD ""}"
+  -- checkEqualProbability: entries within 1e-6 are equal, an entry 3e-6 away is not, and the test is symmetric
+  let v := v.failIf (!(e1 && (!e2 || m.S == 0) && e2 == e3)) s!"checkEqualProbability tolerance_contract near={e1} far={e2} farSym={e3}"
+  return v.render
+
 def handle (toks : List String) : String :=
   let r := match toks with
     | "blind" :: rest => P.run blindOp rest
@@ -500,6 +603,8 @@ def handle (toks : List String) : String :=
     | "final" :: rest => P.run finalOp rest
     | "cons" :: rest => P.run consOp rest
     | "prom" :: rest => P.run promOp rest
+    | "bel" :: rest => P.run belOp rest
+    | "dom" :: rest => P.run domOp rest
     | _ => none
   r.getD "bad-op"
 
